@@ -268,6 +268,7 @@ type aggRun struct {
 	flushMs int
 	delayUs int
 	via     string // "direct" | "engine"
+	mode    string // direct runs: "normal" | "late" | "burst"
 }
 
 // runAggregator captures the aggregator's own Run result (the engine may or may not forward it).
@@ -351,35 +352,65 @@ func emitRunEnd(w *vt.Writer, cfg aggRun, err error, timeout bool) {
 
 func runDirect(cfg aggRun, w *vt.Writer, seed int64) {
 	w.Emit(map[string]interface{}{"ev": "Run", "run": cfg.run, "kind": cfg.kind, "ids": cfg.ids, "k": cfg.k,
-		"q": cfg.q, "flush_ms": cfg.flushMs, "via": cfg.via})
+		"q": cfg.q, "flush_ms": cfg.flushMs, "via": cfg.via, "mode": cfg.mode})
 	a, content := buildAggregator(cfg, w)
 	ctx, cancel := context.WithCancel(context.Background())
 	defer cancel()
 	done := make(chan error, 1)
-	go func() { done <- a.Run(ctx, core.AggregatorDeps{Log: zap.NewNop()}) }()
+	startRun := func() { go func() { done <- a.Run(ctx, core.AggregatorDeps{Log: zap.NewNop()}) }() }
+	// mode "late": Run starts only after every report was made and the context was cancelled
+	// (core.Aggregator: "Report MAY be called before Aggregator Run"): everything is still queued
+	// when Run sees ctx.Done().  Other modes: Run is started first.
+	if cfg.mode != "late" {
+		startRun()
+	}
 	var wg sync.WaitGroup
+	gate := make(chan struct{})
+	var ready sync.WaitGroup
 	for g := 1; g <= cfg.k; g++ {
 		wg.Add(1)
+		ready.Add(1)
 		go func(g int) {
 			defer wg.Done()
 			r := rand.New(rand.NewSource(seed*1000 + int64(g)))
+			if cfg.mode == "burst" {
+				// all goroutines report in a tight loop at the same time; the reports are logged beforehand
+				var ss []core.Sample
+				for i := 1; i <= cfg.per[g-1]; i++ {
+					abs, s := cfg.sample(r, g, i)
+					w.Emit(map[string]interface{}{"ev": "Report", "run": cfg.run, "g": g, "i": i, "s": abs})
+					ss = append(ss, s)
+				}
+				ready.Done()
+				<-gate
+				for _, s := range ss {
+					a.Report(s)
+				}
+				return
+			}
+			ready.Done()
 			for i := 1; i <= cfg.per[g-1]; i++ {
 				abs, s := cfg.sample(r, g, i)
 				// logged BEFORE the call: a line can reach the sink before Report returns
 				w.Emit(map[string]interface{}{"ev": "Report", "run": cfg.run, "g": g, "i": i, "s": abs})
 				a.Report(s)
-				if r.Intn(4) == 0 {
+				if cfg.mode == "normal" && r.Intn(4) == 0 {
 					time.Sleep(time.Duration(r.Intn(300)) * time.Microsecond)
 				}
 			}
 		}(g)
 	}
+	ready.Wait()
+	close(gate)
 	wg.Wait()
-	if cfg.delayUs > 0 {
+	if cfg.delayUs > 0 && cfg.mode != "late" {
 		time.Sleep(time.Duration(cfg.delayUs) * time.Microsecond)
 	}
 	w.Emit(map[string]interface{}{"ev": "Cancel", "run": cfg.run})
 	cancel()
+	if cfg.mode == "late" {
+		startRun()
+	}
 	select {
 	case err := <-done:
 		emitRunEnd(w, cfg, err, false)
@@ -434,7 +465,7 @@ func (g *mockGun) Shoot(core.Ammo) {
 
 func runEngine(cfg aggRun, w *vt.Writer, seed int64) {
 	w.Emit(map[string]interface{}{"ev": "Run", "run": cfg.run, "kind": cfg.kind, "ids": cfg.ids, "k": cfg.k,
-		"q": cfg.q, "flush_ms": cfg.flushMs, "via": cfg.via})
+		"q": cfg.q, "flush_ms": cfg.flushMs, "via": cfg.via, "mode": "engine"})
 	a, content := buildAggregator(cfg, w)
 	rc := &runCapture{a, make(chan error, 1)}
 	total := 0
@@ -541,6 +572,31 @@ func aggMain(args []string) {
 			cfg.delayUs = r.Intn(3000)
 		default:
 			cfg.delayUs = r.Intn(12000)
+		}
+		cfg.mode = "normal"
+		if cfg.via == "direct" {
+			switch r.Intn(6) {
+			case 0:
+				cfg.mode = "late"
+				if cfg.kind == "phout" {
+					// a blocking Report needs room: the queue holds the whole run
+					if r.Intn(2) == 0 {
+						cfg.q = 64
+					}
+					room := cfg.q
+					for g := range cfg.per {
+						if cfg.per[g] > room {
+							cfg.per[g] = room
+						}
+						room -= cfg.per[g]
+					}
+				}
+			case 1:
+				cfg.mode = "burst"
+				for g := range cfg.per {
+					cfg.per[g] = 20 + r.Intn(21)
+				}
+			}
 		}
 		if cfg.via == "engine" {
 			// no drops possible: the queue holds every report of the run
